@@ -428,7 +428,14 @@ func (g *Gen) callExpr(t T, d int) *Node {
 
 // Stmt generates one statement (and updates the scope model).
 func (g *Gen) Stmt(d int) *Node { //nolint:gocyclo,funlen // grammar
-	switch g.R.IntN(28) {
+	switch g.R.IntN(29) {
+	case 28: // extra arguments of a variadic call are copies: the caller's variable changes after the call, the result does not
+		xv, fv, gv := g.fresh("v"), g.fresh("f"), g.fresh("f")
+		t := T(g.R.IntN(4))
+		inner := &Node{K: KFunc, Name: fv, Params: []string{"a"}, Variadic: true, Body: []*Node{MkArr(Id("a"), Id(".."))}}
+		outer := &Node{K: KFunc, Name: gv, Body: []*Node{Assign("r", Call(Id(fv), Id(xv), Id(xv))), Assign(xv, g.Expr(t, 1)), Id("r")}}
+		g.declare(xv, t)
+		return &Node{K: KIf, Kids: []*Node{Lit(true)}, Body: []*Node{Assign(xv, g.Expr(t, 1)), inner, outer, Bi("println", Call(Id(gv)), Id(xv))}}
 	case 26, 27: // an integer parameter or counted-loop variable re-bound inside the body (to another type, or as a nested loop variable)
 		name := g.fresh("i")
 		var rebind *Node
@@ -553,7 +560,7 @@ func (g *Gen) Stmt(d int) *Node { //nolint:gocyclo,funlen // grammar
 		}
 		return g.printStmt(d)
 	case 7:
-		if vs := g.writable(TMap); len(vs) > 0 && g.inFunc == 0 {
+		if vs := g.writable(TMap); len(vs) > 0 {
 			v := vs[g.R.IntN(len(vs))]
 			return &Node{K: KDel, Op: "index", Name: v.name, Kids: []*Node{g.keyLit()}}
 		}
